@@ -18,9 +18,9 @@ from .. import units, guards, effects
 
 MANIFEST = {
     "level": "other",
-    "technique": "static analysis: symbolic evaluation with a floor-shift normal form (weekday), dominance rule on stdlib date calls (structured-control-flow guard analysis), polynomial extraction and exact comparison with the IAU 1982 GMST polynomial, algebraic identity for the equation of the equinoxes, exact decision tables for the day-of-year recipes (month x leap flag, day number x leap flag, and against the library's own date -> JDE conversion on every class of year incl. 1582) and for the fractional-year denominator",
-    "text": "Weekday formula, the absence of proleptic-Gregorian arithmetic on Julian-calendar years, the GMST polynomial with its rate and modulo, the apparent-sidereal-time relation and the MJD offset are decided from the source for all inputs. Day of year is decided as an integer recipe: equal to the calendar table for every month and leap flag, inverse to doy2date, and equal to the JDE difference + 1 on every class of year including the change-over year 1582; the fractional year never reaches the next integer inside a year. Constancy of the weekday over a civil day involves the float date conversion and is not decided.",
-    "note": "Trusted oracles: IAU 1982 GMST expression, 1.00273790935, 2400000.5 (property text); stdlib datetime is proleptic Gregorian. Undecided: constancy of the weekday over a civil day; fractional parts of a day in doy.",
+    "technique": "static analysis: symbolic evaluation with a floor-shift normal form (weekday), dominance rule on stdlib date calls (structured-control-flow guard analysis), polynomial extraction and exact comparison with the IAU 1982 GMST polynomial, algebraic identity for the equation of the equinoxes, exact decision tables for the day-of-year recipes (month x leap flag, day number x leap flag, and against the library's own date -> JDE conversion on every class of year incl. 1582) and for the fractional-year denominator, exact execution (rational arithmetic) of the extracted dow / get_doy / doy2date terms against the library's own date -> JDE term and the checker's day count on whole runs of consecutive civil days in both calendars",
+    "text": "Weekday formula, the absence of proleptic-Gregorian arithmetic on Julian-calendar years, the GMST polynomial with its rate and modulo, the apparent-sidereal-time relation and the MJD offset are decided from the source for all inputs. Day of year is decided as an integer recipe: equal to the calendar table for every month and leap flag, inverse to doy2date, and equal to the JDE difference + 1 on every class of year including the change-over year 1582; the fractional year never reaches the next integer inside a year. The weekday and day-of-year clauses are additionally decided day by day by exact execution of the extracted terms on runs of consecutive civil days (a Julian 4-year cycle, the first years of the domain, 1582-1583, 4-year spans around a common and a leap century year, recent years; thorough tier: every day of the Gregorian cycle 1600..2000): the weekday is the same at 0h, 12h and 23:59:59, equals (day count + 1) mod 7 and the proleptic Gregorian weekday after 1582, the day of year is the JDE difference to 1 January plus one with fractions carried, 365/366 (355 in 1582) on 31 December, and doy2date returns the date.",
+    "note": "Trusted oracles: IAU 1982 GMST expression, 1.00273790935, 2400000.5 (property text); stdlib datetime is proleptic Gregorian. Undecided: days outside the executed runs (periodicity of the recipes); float vs exact evaluation.",
 }
 
 IAU1982 = [Fraction("24110.54841"), Fraction("8640184.812866"), Fraction("0.093104"), Fraction("-0.0000062")]   # seconds
@@ -146,7 +146,8 @@ def max_b(a, b):
 def run(repo, rep, tier):
     rep.decided = ["D1 weekday == floor(JDE + 1.5) mod 7, 0 = Sunday", "D2 no proleptic-Gregorian date arithmetic on Julian years",
                    "D3 GMST == IAU 1982 (1e-7 d), rate 1.00273790935, modulo 1; apparent = mean + dpsi*cos(eps)/15; MJD offset"]
-    rep.undecided = ["weekday constant over a civil day", "day of year == JDE difference + 1", "fractional year strictly increasing (decided: its denominator is the year length get_doy itself uses, for every year)"]
+    rep.undecided = ["days outside the executed runs (periodicity of the recipes)", "fractional year strictly increasing (decided: its denominator is the year length get_doy itself uses, for every year)"]
+    rep.decided.append("D4 weekday constant over a civil day and == (day count + 1) mod 7, day of year == JDE difference + 1, doy2date inverts get_doy: exact execution on whole runs of civil days (R-DAYCYCLE)")
     rep.assumptions = ["floor(x) + n == floor(x + n) for integer n"]
     rep.rule("R-E4-ID", "formula identity")
     # D1 weekday
@@ -202,6 +203,7 @@ def run(repo, rep, tier):
         rep.violation("R-E4-ID", "Epoch.Epoch.mjd", "mjd-offset", "mjd() is not JDE - 2400000.5: " + T.show(t)[:80], obligation=True)
     year_fraction(repo, rep)
     doy_tables(repo, rep, tier)
+    day_cycle(repo, rep, tier)
     fam = [("Epoch", "Epoch." + q) for q in ("dow", "get_doy", "doy", "doy2date", "year", "leap", "is_leap", "mean_sidereal_time",
                                               "apparent_sidereal_time", "mjd", "jde")]
     units.check_functions(repo, rep, fam)
@@ -255,6 +257,126 @@ def stdlib_prims(repo):
             return Fraction(getattr(_dt.date.fromordinal(int(o)), t[2]))
         return None
     return prims
+
+
+# --------------------------------------------------------------------------------------------------------------------------
+# R-DAYCYCLE: weekday, day of year and its inverse executed exactly on whole runs of civil days
+# --------------------------------------------------------------------------------------------------------------------------
+_DAY_TERMS = {}
+
+
+def _day_terms(root):
+    if root not in _DAY_TERMS:
+        from ..frontend import Repo
+        from ..rules import repo_prims
+        from .c01 import _cycle_terms
+        repo = Repo(root) if root else Repo()
+        tj, _, _ = _cycle_terms(root)
+        fn = repo.func("Epoch", "Epoch.dow")
+        names = [a.arg for a in fn.args.args]
+        at = {names[0]: ("epoch", T.sym("NUM_J"))}
+        if len(names) > 1:
+            at[names[1]] = ("bool", False)
+        t_dow = ret_term(repo, "Epoch", "Epoch.dow", arg_terms=at)
+        fg = repo.func("Epoch", "Epoch.get_doy")
+        gn = [a.arg for a in fg.args.args]
+        t_doy = ret_term(repo, "Epoch", "Epoch.get_doy", arg_terms=dict(zip(gn, (T.sym("NUM_Y"), T.sym("NUM_M"), T.sym("NUM_D")))), unroll=16)
+        fd = repo.func("Epoch", "Epoch.doy2date")
+        dn = [a.arg for a in fd.args.args]
+        t_inv = ret_term(repo, "Epoch", "Epoch.doy2date", arg_terms=dict(zip(dn, (T.sym("NUM_Y"), T.sym("NUM_N")))), unroll=16)
+        _DAY_TERMS[root] = (tj, t_dow, t_doy, t_inv, repo_prims(repo, stdlib_prims(repo)))
+    return _DAY_TERMS[root]
+
+
+def _day_chunk(job):
+    import calendar as _cal
+    import datetime as _dt
+    from ..rules import eval_exact, NotEvaluable
+    from .c01 import _civil_days
+    from .c19 import _civil_jdn
+    root, start, count = job
+    tj, t_dow, t_doy, t_inv, prims = _day_terms(root)
+    Y, M, D, J, N = T.sym("NUM_Y"), T.sym("NUM_M"), T.sym("NUM_D"), T.sym("NUM_J"), T.sym("NUM_N")
+    probs = []
+    n = 0
+    jan1 = {}
+    for (y, m, d) in _civil_days(start, count):
+        try:
+            j = eval_exact(tj, {Y: Fraction(y), M: Fraction(m), D: Fraction(d), "$memo": {}}, prims)
+            if y not in jan1:
+                jan1[y] = eval_exact(tj, {Y: Fraction(y), M: Fraction(1), D: Fraction(1), "$memo": {}}, prims)
+            ws = [eval_exact(t_dow, {J: j + o, "$memo": {}}, prims) for o in (Fraction(0), Fraction(1, 2), Fraction(86399, 86400))]
+            doy = eval_exact(t_doy, {Y: Fraction(y), M: Fraction(m), D: Fraction(d), "$memo": {}}, prims)
+            doyf = eval_exact(t_doy, {Y: Fraction(y), M: Fraction(m), D: Fraction(d) + Fraction(3, 4), "$memo": {}}, prims)
+            inv = eval_exact(t_inv, {Y: Fraction(y), N: doy, "$memo": {}}, prims)
+        except NotEvaluable as e:
+            return n, [("not-evaluable", "%s at %d-%02d-%02d" % (e, y, m, d))]
+        except (TypeError, ValueError, ZeroDivisionError, IndexError) as e:
+            probs.append(("error", "%s: %s at %d-%02d-%02d" % (type(e).__name__, e, y, m, d)))
+            continue
+        n += 1
+        date = "%d-%02d-%02d" % (y, m, d)
+        want_w = (_civil_jdn(y, m, d) + 1) % 7
+        if len(set(ws)) != 1:
+            probs.append(("weekday-constant", "%s: weekday %s at 0h, %s at 12h, %s at 23:59:59" % (date, ws[0], ws[1], ws[2])))
+        elif ws[0] != want_w:
+            probs.append(("weekday", "%s: weekday %s, the day count gives %d (0 = Sunday)" % (date, ws[0], want_w)))
+        elif (y, m, d) >= (1582, 10, 15) and y <= 9999 and ws[0] != _dt.date(y, m, d).isoweekday() % 7:
+            probs.append(("weekday-gregorian", "%s: weekday %s, proleptic Gregorian weekday %d" % (date, ws[0], _dt.date(y, m, d).isoweekday() % 7)))
+        if doy != j - jan1[y] + 1:
+            probs.append(("doy", "%s: day of year %s, but the date is %s days after 1 January" % (date, float(doy), float(j - jan1[y]))))
+        elif doyf != doy + Fraction(3, 4):
+            probs.append(("doy-fraction", "%s.75: day of year %s, expected %s" % (date, float(doyf), float(doy + Fraction(3, 4)))))
+        if (m, d) == (12, 31):
+            leap = _cal.isleap(y) if y > 1582 else y % 4 == 0
+            want_n = 355 if y == 1582 else (366 if leap else 365)
+            if doy != want_n:
+                probs.append(("doy-yearend", "%s: day of year %s, the year has %d days" % (date, float(doy), want_n)))
+        if not (isinstance(inv, tuple) and len(inv) == 3 and tuple(inv) == (y, m, d)):
+            probs.append(("doy2date", "%s: doy2date(%d, %s) = %s" % (date, y, float(doy), tuple(float(x) for x in inv) if isinstance(inv, tuple) else inv)))
+    return n, probs
+
+
+def day_cycle(repo, rep, tier):
+    """R-DAYCYCLE.  dow(), get_doy() and doy2date() are integer recipes; their extracted terms are executed exactly on runs of
+    consecutive civil days - a Julian 4-year cycle, the first year of the domain, 1582-1583, 4-year spans around a common and a
+    leap century year, recent years (thorough tier: a full Gregorian 400-year cycle).  Per day: the weekday is the same at 0h, 12h
+    and 23:59:59, equals (day count + 1) mod 7 and - from 15 Oct 1582 - the proleptic Gregorian weekday; the day of year is the
+    library's own JDE difference to 1 January plus one (fractions carried), 365/366 (355 in 1582) on 31 December; doy2date inverts it."""
+    rep.rule("R-DAYCYCLE", "weekday constant over the civil day and == (day count + 1) mod 7; day of year == JDE - JDE(1 January) + 1; doy2date inverts get_doy: "
+                           "exact execution of the extracted terms on whole runs of civil days in both calendars")
+    site = "Epoch.Epoch.dow/get_doy/doy2date"
+    root = repo.root
+    jobs = [(root, (999, 1, 1), 1462), (root, (-4712, 1, 1), 732), (root, (-1, 1, 1), 800), (root, (1581, 12, 1), 800), (root, (1699, 1, 1), 1462),
+            (root, (1999, 1, 1), 1462), (root, (2023, 1, 1), 732), (root, (5999, 1, 1), 365)]
+    if tier == "thorough":
+        from .c01 import _civil_days
+        day = (1600, 1, 1)
+        for _ in range(40):
+            jobs.append((root, day, 3653))
+            day = _civil_days(day, 3654)[-1]
+    from concurrent.futures import ProcessPoolExecutor
+    try:
+        with ProcessPoolExecutor(max_workers=14 if tier == "thorough" else 8) as ex:
+            results = list(ex.map(_day_chunk, jobs))
+    except NotImplementedError:
+        results = [_day_chunk(j_) for j_ in jobs]
+    n = sum(r[0] for r in results)
+    probs = [p for r in results for p in r[1]]
+    ne = [p for p in probs if p[0] == "not-evaluable"]
+    if ne:
+        rep.inconcl("R-DAYCYCLE", site, "terms not executable: " + ne[0][1])
+        return
+    by = {}
+    for kind, text in probs:
+        by.setdefault(kind, []).append(text)
+    for kind, lst in sorted(by.items()):
+        rep.violation("R-DAYCYCLE", site, "daycycle:" + kind, lst[0] + "  (%d of %d executed days fail this way)" % (len(lst), n), obligation=True)
+    if not probs:
+        rep.ok("R-DAYCYCLE", site, "%d civil days executed exactly: weekday constant over the day and == (day count + 1) mod 7 (proleptic Gregorian after 1582), "
+               "day of year == JDE difference + 1 with 365/366/355 at year end, doy2date inverts get_doy%s" % (n, " (incl. the Gregorian cycle 1600..2000)" if tier == "thorough" else ""),
+               obligation=True)
+    rep.floor("civil days executed through dow / get_doy / doy2date", n, 7000)
 
 
 def year_fraction(repo, rep):
